@@ -118,6 +118,14 @@ func replayTestGen(ctx *RunCtx, e Entry, v engine.Violation, dir string) (bool, 
 	for _, m := range regexp.MustCompile(`(?m)^(?:Fail )?Example test[0-9A-Za-z]+_ok : ((?:failing_)?test[0-9A-Za-z]+) #\(\)`).FindAllStringSubmatch(string(coqOut), -1) {
 		gotCoq = append(gotCoq, m[1])
 	}
+	if strings.Contains(v.Label, "does-not-crash") {
+		for mode, out := range map[string][]byte{"-go": goOut, "-coq": coqOut} {
+			if strings.Contains(string(out), "panic:") || strings.Contains(string(out), "goroutine 1 [running]") {
+				return true, "real test_gen " + mode + " crashes: " + firstLineWith(string(out), "panic:")
+			}
+		}
+		return false, "real test_gen does not crash on this directory"
+	}
 	w, g, c := strings.Join(want, ","), strings.Join(gotGo, ","), strings.Join(gotCoq, ",")
 	detail := fmt.Sprintf("expected tests [%s]; -go emitted [%s]; -coq emitted [%s]", w, g, c)
 	if strings.HasPrefix(v.Label, "go/") && g != w {
